@@ -539,7 +539,7 @@ def expand_net(st, seed):
             shapes = [dict(o=len(L["W"]), i=len(L["W"][0]), act=L["act"]) for L in r["layers"]]
             P = sum(s["o"] * s["i"] + s["o"] for s in shapes)
             r.update(inner=shapes, hyper=[dict(W=_imat(rng, P, 2, -1, 1), b=[rng.randint(-1, 1) for _ in range(P)], act="id")],
-                     hth=[rng.choice([1, 2]), rng.choice([-1, 1, 3])])
+                     hth=[rng.choice([1, 2]), rng.choice([-1, 1, 3])], hporder=rng.choice(["k3k4", "k4k3"]))
     else:
         d, R, M, b = st["d"], st["r"], st["m"], st["b"]
         r.update(d=d, R=R, M=M, b=b, pform=st["pform"], depth=st["depth"], act=st["act"],
